@@ -60,7 +60,7 @@ class Multitask:
         if len(values) == self._m_tasks:
             return [deepcopy(values) for _ in range(0, self._n_algorithms)]
         if len(values) == (self._n_algorithms * self._m_tasks):
-            return values
+            return [deepcopy(values[i * self._m_tasks:(i + 1) * self._m_tasks]) for i in range(0, self._n_algorithms)]
 
         raise ValueError(f"{name} should be list of {kind} instances with size (1) or (n) or (m) or (n*m), "
                          f"where n is #algorithms, m is #problems.")
